@@ -411,6 +411,10 @@ impl GraphEngine {
     }
 
     /// Get edge weight between two nodes (returns weight and `edge_id`).
+    ///
+    /// Considers every edge that leads from `from` to `to` under `direction`
+    /// (the same edges `neighbors` follows: directed edges in their direction,
+    /// undirected edges either way) and returns the lightest one.
     fn get_astar_edge_weight(
         &self,
         from: u64,
@@ -420,45 +424,56 @@ impl GraphEngine {
         edge_type: Option<&str>,
         direction: Direction,
     ) -> (f64, u64) {
-        let edges_key = match direction {
-            Direction::Outgoing | Direction::Both => Self::outgoing_edges_key(from),
-            Direction::Incoming => Self::incoming_edges_key(from),
-        };
-
-        for edge_id in self.get_edge_list(&edges_key) {
-            let Ok(edge) = self.get_edge(edge_id) else {
-                continue;
-            };
-
-            let connects = match direction {
-                Direction::Outgoing => edge.to == to,
-                Direction::Incoming => edge.from == to,
-                Direction::Both => edge.to == to || edge.from == to,
-            };
-
-            if !connects {
-                continue;
-            }
-
-            if let Some(et) = edge_type {
-                if edge.edge_type != et {
-                    continue;
-                }
-            }
-
-            let weight = match weight_property {
-                Some(prop) => match edge.properties.get(prop) {
-                    Some(PropertyValue::Float(w)) => *w,
-                    Some(PropertyValue::Int(w)) => *w as f64,
-                    _ => default_weight,
-                },
-                None => default_weight,
-            };
-
-            return (weight, edge_id);
+        let mut lists = Vec::with_capacity(2);
+        if direction == Direction::Outgoing || direction == Direction::Both {
+            lists.push((Self::outgoing_edges_key(from), true));
+        }
+        if direction == Direction::Incoming || direction == Direction::Both {
+            lists.push((Self::incoming_edges_key(from), false));
         }
 
-        (default_weight, 0)
+        let mut best: Option<(f64, u64)> = None;
+
+        for (edges_key, outgoing) in lists {
+            for edge_id in self.get_edge_list(&edges_key) {
+                let Ok(edge) = self.get_edge(edge_id) else {
+                    continue;
+                };
+
+                let as_stored = edge.from == from && edge.to == to;
+                let reversed = edge.to == from && edge.from == to;
+                let connects = if outgoing {
+                    as_stored || (!edge.directed && reversed)
+                } else {
+                    reversed || (!edge.directed && as_stored)
+                };
+
+                if !connects {
+                    continue;
+                }
+
+                if let Some(et) = edge_type {
+                    if edge.edge_type != et {
+                        continue;
+                    }
+                }
+
+                let weight = match weight_property {
+                    Some(prop) => match edge.properties.get(prop) {
+                        Some(PropertyValue::Float(w)) => *w,
+                        Some(PropertyValue::Int(w)) => *w as f64,
+                        _ => default_weight,
+                    },
+                    None => default_weight,
+                };
+
+                if best.is_none_or(|(w, _)| weight < w) {
+                    best = Some((weight, edge_id));
+                }
+            }
+        }
+
+        best.unwrap_or((default_weight, 0))
     }
 }
 
